@@ -5,3 +5,4 @@ import JaxVerif.Properties.C12
 #print axioms JV.C12_pure_verdict
 #print axioms JV.C12_generated_good
 #print axioms JV.C12_facts_matter
+#print axioms JV.C12_no_other_state
